@@ -67,27 +67,48 @@ func checkC19(c *Check) {
 			}
 		}
 		need := p.Sys("MSG_TRUNC") | p.Sys("MSG_CTRUNC")
-		// the flags atom
-		var flagAtom string
-		var flagIf *ssa.If
+		// every test of the receive flags: `flags & K ==/!= 0` (one test of both bits, or one test per bit)
+		type flagTest struct {
+			iff  *ssa.If
+			k    int64
+			atom string // canonical "(flags & K) == 0"
+			tIdx int    // successor index of the "some bit of K is set" edge
+		}
+		var tests []flagTest
 		for _, b := range rm.Blocks {
-			if iff := blockIf(b); iff != nil {
-				if bo, ok := iff.Cond.(*ssa.BinOp); ok {
-					if and, ok := stripConv(bo.X).(*ssa.BinOp); ok && and.Op == token.AND {
-						if m, ok := constInt(and.Y); ok && m&need == need {
-							if ex, ok := stripConv(and.X).(*ssa.Extract); ok && read != nil && ex.Tuple == read.(ssa.Value) && ex.Index == 2 {
-								flagAtom, _ = condLit(iff.Cond)
-								flagIf = iff
-							}
-						}
-					}
+			iff := blockIf(b)
+			if iff == nil {
+				continue
+			}
+			bo, ok := iff.Cond.(*ssa.BinOp)
+			if !ok || (bo.Op != token.NEQ && bo.Op != token.EQL) {
+				continue
+			}
+			and, ok := stripConv(bo.X).(*ssa.BinOp)
+			if !ok || and.Op != token.AND {
+				continue
+			}
+			m, ok := constInt(and.Y)
+			if z, isZ := constInt(bo.Y); !ok || !isZ || z != 0 {
+				continue
+			}
+			if ex, ok := stripConv(and.X).(*ssa.Extract); ok && read != nil && ex.Tuple == read.(ssa.Value) && ex.Index == 2 {
+				a, _ := condLit(iff.Cond)
+				t := flagTest{iff: iff, k: m, atom: a, tIdx: 0}
+				if bo.Op == token.EQL {
+					t.tIdx = 1
 				}
+				tests = append(tests, t)
 			}
 		}
-		if flagIf == nil {
-			c.Fail("2/truncation-rejected", key+":flag-test", p.Pos(rm.Pos()), "the receive flags are not tested against a mask ⊇ MSG_TRUNC|MSG_CTRUNC")
+		var all int64
+		for _, t := range tests {
+			all |= t.k
+		}
+		if len(tests) == 0 || all&need != need {
+			c.Fail("2/truncation-rejected", key+":flag-test", p.Pos(rm.Pos()), fmt.Sprintf("the receive flags are tested against %#x only: MSG_TRUNC|MSG_CTRUNC = %#x is not covered", all, need))
 		} else {
-			c.OK("2/truncation-rejected", key+":flag-test", p.Pos(flagIf.Pos()), "receive flags are tested against MSG_TRUNC|MSG_CTRUNC")
+			c.OK("2/truncation-rejected", key+":flag-test", p.Pos(tests[0].iff.Pos()), "receive flags are tested against MSG_TRUNC and MSG_CTRUNC")
 			n := 0
 			for _, b := range rm.Blocks {
 				ret, ok := b.Instrs[len(b.Instrs)-1].(*ssa.Return)
@@ -96,25 +117,39 @@ func checkC19(c *Check) {
 				}
 				n++
 				g := cd.guardOf(b)
-				ok2, _, _ := Valid(fImp(g, fLit(flagAtom)))
-				c.Cond(ok2, "2/truncation-rejected", fmt.Sprintf("%s:success-return#%d", key, n), p.Pos(ret.Pos()), "a message is delivered only if neither payload nor control data were truncated",
-					"a success return is not behind the truncation test: an oversize message can be delivered cut short with a nil error")
-			}
-			// the truncation edge returns an error after closing the descriptors that arrived
-			tb := flagIf.Block().Succs[0]
-			if a, neg := condLit(flagIf.Cond); neg {
-				_ = a
-			}
-			var closer *ssa.Function
-			for _, in := range tb.Instrs {
-				if ci, ok := in.(ssa.CallInstruction); ok {
-					if _, callee := calleeOf(ci); callee != nil && inModule(callee) && reachesCall(callee, 1, nameIs("syscall.Close")) {
-						closer = callee
-						c.Cond(strings.Contains(describe(ci.Common().Args[0]), ".recvBuff["), "3/no-leak-on-reject", key+":truncated-closes:arg", p.Pos(ci.Pos()), "the closer is given the received control data", "the closer is given "+describe(ci.Common().Args[0]))
+				var clear int64
+				for _, t := range tests {
+					if v, _, _ := Valid(fImp(g, fLit(t.atom))); v {
+						clear |= t.k
 					}
 				}
+				c.Cond(clear&need == need, "2/truncation-rejected", fmt.Sprintf("%s:success-return#%d", key, n), p.Pos(ret.Pos()), "a message is delivered only if neither payload nor control data were truncated",
+					fmt.Sprintf("a success return is behind tests that clear only %#x of MSG_TRUNC|MSG_CTRUNC (%#x): a message cut short can be delivered with a nil error", clear, need))
 			}
-			c.Cond(closer != nil && leadsToReturn(tb, 1), "3/no-leak-on-reject", key+":truncated-closes", p.Pos(flagIf.Pos()), "a truncated message's descriptors are closed before the error is returned", "the truncation path returns without closing the descriptors the kernel already installed for the message")
+			// every path that leaves through a "truncated" edge closes the descriptors that arrived before it returns
+			var closer *ssa.Function
+			isCloser := func(in ssa.Instruction) bool {
+				if ci, ok := in.(ssa.CallInstruction); ok {
+					if _, callee := calleeOf(ci); callee != nil && inModule(callee) && reachesCall(callee, 1, nameIs("syscall.Close")) {
+						return true
+					}
+				}
+				return false
+			}
+			for ti, t := range tests {
+				tb := t.iff.Block().Succs[t.tIdx]
+				for _, in := range tb.Instrs {
+					if ci, ok := in.(ssa.CallInstruction); ok && isCloser(in) {
+						_, closer = calleeOf(ci)
+						c.Cond(strings.Contains(describe(ci.Common().Args[0]), ".recvBuff["), "3/no-leak-on-reject", fmt.Sprintf("%s:truncated-closes#%d:arg", key, ti+1), p.Pos(ci.Pos()), "the closer is given the received control data", "the closer is given "+describe(ci.Common().Args[0]))
+					}
+				}
+				idx := t.tIdx
+				blk := t.iff.Block()
+				leak, trail := pathQuery{fn: rm, from: t.iff, target: isReturn, stop: isCloser, edgeOK: func(b *ssa.BasicBlock, k int) bool { return b != blk || k == idx }}.find()
+				c.Cond(!leak, "3/no-leak-on-reject", fmt.Sprintf("%s:truncated-closes#%d(mask %#x)", key, ti+1, t.k), p.Pos(t.iff.Cond.Pos()), "a truncated message's descriptors are closed before the error is returned",
+					"a truncation path returns without closing the descriptors the kernel already installed for the message ("+p.trail(trail)+")")
+			}
 			if closer != nil {
 				checkControlCloser(c, closer)
 			}
@@ -128,8 +163,17 @@ func checkC19(c *Check) {
 						if df, isD := in.(*ssa.Defer); isD {
 							if mc, isMC := df.Call.Value.(*ssa.MakeClosure); isMC {
 								cl := mc.Fn.(*ssa.Function)
-								if reachesCall(cl, 0, nameIs("syscall.Close")) && b == callee.Blocks[0] {
-									ok = true
+								// registered before any descriptor is taken out of the control data
+								if reachesCall(cl, 0, nameIs("syscall.Close")) {
+									dom := true
+									for _, c3 := range callInstrs(callee) {
+										if n3, _ := calleeOf(c3); n3 == "syscall.ParseUnixRights" && !(b == c3.Block() || b.Dominates(c3.Block())) {
+											dom = false
+										}
+									}
+									if dom {
+										ok = true
+									}
 								}
 							}
 						}
